@@ -79,3 +79,26 @@ Proof.
   exists d10_dec, (d10_cfg false), d10_stream, d10_sched0. split; [reflexivity|]. split; [reflexivity|].
   apply d10_leaks. vm_compute. do 3 eexists. repeat split; reflexivity.
 Qed.
+
+(** ** what the listener theorems assume about the notification stream: NOTHING for safety (they
+    quantify over every stream).  The one place where the Pub/Sub enters is this end-to-end
+    statement: IF every notification a listener is handed was published on the reply topic by the
+    handler side for some delivery ([stream_from_deliveries] - for GoChannel that is
+    C04_no_other_topic + C04_content_acceptor_sound: a subscriber only gets copies of what was
+    published on its topic, unmodified), THEN every non-final reply a caller reads is exactly the
+    result and error text of a delivery of ITS OWN command. *)
+Definition stream_from_deliveries (enc : N -> option N) (deliveries : list (pcfg * pinput)) (stream : list notif) : Prop :=
+  forall n, In n stream -> exists pc i, In (pc, i) deliveries /\ In (PPublish n) (fst (on_processed enc pc i)).
+
+Theorem replies_are_own_deliveries dec enc c deliveries stream ls r :
+  (forall x p, enc x = Some p -> dec p = Some x) ->
+  stream_from_deliveries enc deliveries stream ->
+  In r (got (lrun (unm_json dec) c (linit stream) ls)) ->
+  is_final r = true \/
+  exists pc i, In (pc, i) deliveries /\ p_op i = opid c /\ r = ROwn (p_res i) (p_err i) (p_nid i).
+Proof.
+  intros Hrt Hs H.
+  destruct (reply_end_to_end dec enc c stream ls r Hrt H) as [Hf|[n [H1 [H2 [H3 H4]]]]]; [now left|right].
+  destruct (Hs n H1) as [pc [i [Hd Hp]]]. destruct (H4 pc i Hp) as [Hr Ho].
+  exists pc, i. auto.
+Qed.
